@@ -14,6 +14,7 @@ import (
 	"os"
 	"strings"
 	"sync"
+	"testing/iotest"
 
 	blocks "github.com/ipfs/go-block-format"
 	carv2 "github.com/ipld/go-car/v2"
@@ -62,17 +63,22 @@ func scanOutcome(c *acCase, kind string, file []byte) (n int, bad bool, end stri
 		}
 	}
 	switch kind {
-	case "br-next", "br-next-plain", "br-skip", "br-alt":
+	case "br-next", "br-next-plain", "br-skip", "br-alt", "br-skip-bufio", "br-next-dataerr", "br-skip-dataerr":
 		var r io.Reader = bytes.NewReader(file)
-		if kind == "br-next-plain" {
+		switch kind {
+		case "br-next-plain":
 			r = &plainReader{bytes.NewReader(file)}
+		case "br-skip-bufio": // a buffered stream (has Discard, ReadByte)
+			r = bufio.NewReaderSize(&plainReader{bytes.NewReader(file)}, 64)
+		case "br-next-dataerr", "br-skip-dataerr": // a stream that hands out its last bytes together with io.EOF
+			r = iotest.DataErrReader(&plainReader{bytes.NewReader(file)})
 		}
 		br, err := carv2.NewBlockReader(r)
 		if err != nil {
 			return 0, false, "ctor-err", err.Error()
 		}
 		for i := 0; ; i++ {
-			useSkip := kind == "br-skip" || (kind == "br-alt" && i%2 == 1)
+			useSkip := strings.HasPrefix(kind, "br-skip") || (kind == "br-alt" && i%2 == 1)
 			if useSkip {
 				md, err := br.SkipNext()
 				if err == io.EOF {
@@ -125,7 +131,7 @@ func scanOutcome(c *acCase, kind string, file []byte) (n int, bad bool, end stri
 }
 
 func truncReaders(c *acCase) []string {
-	rs := []string{"br-next", "br-next-plain", "br-skip", "br-alt", "inspect"}
+	rs := []string{"br-next", "br-next-plain", "br-skip", "br-alt", "br-skip-bufio", "br-next-dataerr", "br-skip-dataerr", "inspect"}
 	if c.A.Ver == 1 {
 		rs = append(rs, "root-reader", "int-reader")
 		if len(c.A.Roots) > 0 {
@@ -220,7 +226,7 @@ func runTruncCase(x *acCtx, c *acCase) {
 				mut[p] ^= m
 				ends := map[string]string{}
 				for _, rk := range readers {
-					if rk == "br-skip" || rk == "br-alt" {
+					if strings.HasPrefix(rk, "br-skip") || rk == "br-alt" {
 						continue // SkipNext does not verify (C14 holds it to positions only)
 					}
 					n, bad, end, _ := scanOutcome(c, rk, mut)
